@@ -90,6 +90,19 @@ DoBatchLong ==
     /\ LET val(i) == IF \E k \in 1..Len(e.zs) : e.zs[k] = i THEN Zero ELSE R(i % NREG)
        IN Observe(/\ Has("outs") /\ Len(e.outs) = e.n
                   /\ \A i \in 0..(e.n - 1) : e.outs[i + 1] = OutOf(FInv(q, val(i))))
+\* GF255 only: product of two "not reduced" intermediate values.  Form f on registers (x1, x2, x3):
+\*   0: x1+x2   1: x1-x2   2: 2*x1   3: 2*x1+x2   4: 2*x1-x2   5: x1+x2   6: x1+x2-x3   7: x1-x2   8: x1-x2+2*x3
+NrForm(f, r) ==
+    LET x1 == R(r[1])  x2 == R(r[2])  x3 == R(r[3])  d == FAdd(q, x1, x1)
+    IN CASE f = 0 -> FAdd(q, x1, x2) [] f = 1 -> FSub(q, x1, x2) [] f = 2 -> d
+         [] f = 3 -> FAdd(q, d, x2) [] f = 4 -> FSub(q, d, x2)
+         [] f = 5 -> FAdd(q, x1, x2) [] f = 6 -> FSub(q, FAdd(q, x1, x2), x3)
+         [] f = 7 -> FSub(q, x1, x2) [] OTHER -> FAdd(q, FSub(q, x1, x2), FAdd(q, x3, x3))
+DoNrMul == Is("nrmul")
+           /\ LET a == NrForm(e.f, e.xs)
+              IN Write(CASE e.v = 0 -> FMul(q, a, NrForm(e.g, e.ys))
+                         [] e.v = 3 -> FSq(q, a)
+                         [] OTHER -> FMul(q, a, R(e.ys[1])))
 DoLegendre == Is("legendre") /\ Observe(Has("res") /\ e.res = Legendre(q, R(e.a)))
 
 \* square roots are checked relationally on the returned element
@@ -176,7 +189,7 @@ Next ==
     \/ DoInit \/ DoRaw \/ DoFromInt \/ DoConst
     \/ DoAdd \/ DoSub \/ DoMul \/ DoNeg \/ DoSquare \/ DoXSquare \/ DoHalf
     \/ DoMulK \/ DoMulSmall
-    \/ DoDiv \/ DoInvert \/ DoBatchInvert \/ DoBatchLong \/ DoLegendre \/ DoSqrt
+    \/ DoDiv \/ DoInvert \/ DoBatchInvert \/ DoBatchLong \/ DoNrMul \/ DoLegendre \/ DoSqrt
     \/ DoEncode \/ DoEquals \/ DoIsZero
     \/ DoDecodeCt \/ DoDecode \/ DoDecodeReduce
     \/ DoSetCond \/ DoSelect \/ DoCSwap \/ DoLookup16
